@@ -493,6 +493,7 @@ func execNew(f []string) vlib.Res {
 	s.prefetch = pf
 	s.twoNS = get("two", "0") == "1"
 	upstreamTimeout := vlib.Atoi(get("to", "0"))
+	hostTTL := uint32(vlib.AtoU64(get("hns", "3600"))) // lease of the zone hosting glue-less name servers
 	qmin := vlib.Atoi(get("qmin", "0"))
 	for len(ns) < depth {
 		ns = append(ns, 300)
@@ -518,7 +519,7 @@ func execNew(f []string) vlib.Res {
 		// never be retained. Keep "DS present" = "DS retained" (see notes/C08.md).
 		signed = signed && sg[k-1] == '1'
 		if s.oob && k == 2 {
-			s.host = s.addInst(9, 0, parent, 3600, 3600, false, "new")
+			s.host = s.addInst(9, 0, parent, hostTTL, hostTTL, false, "new")
 		}
 		i := s.addInst(k, 0, parent, ns[k-1], ds[k-1], signed, "new")
 		s.names = append(s.names, i.name)
@@ -531,6 +532,8 @@ func execNew(f []string) vlib.Res {
 		for _, p := range [][2]string{{"w", "www"}, {"f", "flip"}, {"b", "bflip"}, {"p", "flop"}} {
 			s.alias.z.Add(fmt.Sprintf("%s%d.al. 3600 IN CNAME %s.%s", p[0], k+1, p[1], n))
 		}
+		// and a long-lived DNAME whose target is the whole chain zone (Resolver.answer splices the target leg)
+		s.alias.z.Add(fmt.Sprintf("dn%d.al. 3600 IN DNAME %s", k+1, n))
 	}
 	s.p = l3.NewPipe(s.w, l3.PipeOpts{DNSSEC: s.dnssec, Tweak: func(cfg *config.Config) {
 		cfg.Prefetch = uint32(pf)
@@ -969,6 +972,17 @@ func execQuery(s *scenario, f []string) vlib.Res {
 						failed++
 					}
 				}
+				if failed == 3 && sig == "l3/reply/not-following-parent" {
+					// earlier failures of the scenario may have built up a cached-failure backoff
+					// (RFC 9520, ≤ 5 min — C13's subject): only a failure that survives it counts
+					for try := 0; try < 2 && failed == 3; try++ {
+						s.quiesce()
+						s.p.Advance(301 * time.Second)
+						if r2 := s.p.Query(f[2], qt, fl); r2 != nil && r2.Rcode != dns.RcodeServerFailure {
+							failed = 0
+						}
+					}
+				}
 				if failed == 3 {
 					v := fmt.Sprintf("FAIL sig=%s q=%s/%s want=%s", sig, lcn(f[2]), f[3], tr.Kind)
 					if sig == "l3/reply/not-following-parent" {
@@ -1328,6 +1342,9 @@ func genL3Case(r *vlib.R, n int, emit func(string)) int {
 		}
 		attl, neg = 86400, 86400
 	}
+	if kind == 4 && r.Chance(1, 2) {
+		return genHosterCase(r, emit)
+	}
 	secI := 0
 	if sec {
 		secI = 1
@@ -1377,6 +1394,13 @@ func genL3Case(r *vlib.R, n int, emit func(string)) int {
 			}
 			e("l3 q flip." + V + " A" + fl())
 			e("l3 q bflip." + V + " A" + fl())
+			if aliases || r.Chance(1, 2) {
+				// below a DNAME in the alias zone: positive, NXDOMAIN (with SOA) and NODATA target legs
+				e(fmt.Sprintf("l3 q flip.dn%d.al. A%s", vic, fl()))
+				e(fmt.Sprintf("l3 q www.dn%d.al. AAAA%s", vic, fl()))
+				e(fmt.Sprintf("l3 q www.dn%d.al. A%s", vic, fl()))
+				e(fmt.Sprintf("l3 q flop.dn%d.al. A%s", vic, fl()))
+			}
 			if vic < depth && r.Chance(1, 2) {
 				e(fmt.Sprintf("l3 q b%d.al. A%s", depth, fl()))
 				e(fmt.Sprintf("l3 q w%d.al. A%s", depth, fl()))
@@ -1399,6 +1423,7 @@ func genL3Case(r *vlib.R, n int, emit func(string)) int {
 			if aliases {
 				e(fmt.Sprintf("l3 q b%d.al. A%s", vic, fl()))
 				e(fmt.Sprintf("l3 q f%d.al. A%s", vic, fl()))
+				e(fmt.Sprintf("l3 q flip.dn%d.al. A%s", vic, fl()))
 			}
 			if vic < depth && r.Chance(1, 2) {
 				e("l3 q www." + deepest + " A" + fl())
@@ -1478,5 +1503,48 @@ func genL3Case(r *vlib.R, n int, emit func(string)) int {
 		e("l3 adv 43200000")
 		probes()
 	}
+	return cnt
+}
+
+// genHosterCase: the zone that HOSTS a glue-less delegation's name servers is the one
+// the parent withdraws. What the internal name-server address lookups learned through
+// it (and filed in the shared answer cache, in the CD partition they ran in) ends with
+// its lease like anything else.
+func genHosterCase(r *vlib.R, emit func(string)) int {
+	cnt := 0
+	e := func(s string) { emit(s); cnt++ }
+	sec := r.Intn(2)
+	sg := vlib.Pick(r, []string{"11", "10", "00"})
+	e(fmt.Sprintf("l3 new d=2 sec=%d ns=%d,%d ds=3600,3600 sg=%s attl=300 neg=300 pf=%d qmin=0 oob=1 hns=%d k=4",
+		sec, vlib.Pick(r, []int{3600, 86400}), vlib.Pick(r, []int{3600, 86400, 172800}), sg,
+		vlib.Pick(r, []int{0, 0, 50}), vlib.Pick(r, []int{3, 5, 10, 30})))
+	flags := []string{"", " do", " cd", " do cd"}
+	e("l3 q www.vic.test. A" + vlib.Pick(r, flags))
+	e("l3 q www.vic.test. A cd")
+	e("l3 q long.vic.test. A")
+	hostProbes := func(cd string) {
+		e("l3 q ns1-vic.host.test. A" + cd)
+		e("l3 q ns1-vic.host.test. A do" + cd)
+		e("l3 q www.host.test. A" + cd)
+		e("l3 q nx.host.test. A" + cd)
+		e("l3 q ns1-vic.host.test. AAAA" + cd)
+	}
+	if r.Chance(1, 2) {
+		hostProbes(vlib.Pick(r, []string{"", " cd"}))
+	}
+	for i := r.Intn(3); i > 0; i-- {
+		e(fmt.Sprintf("l3 adv %d", vlib.Pick(r, []int{200, 900, 1100})))
+		e("l3 q short.vic.test. A" + vlib.Pick(r, flags))
+	}
+	e("l3 withdraw host.test.")
+	if r.Chance(1, 2) {
+		e("l3 adv 900")
+		e("l3 q ns1-vic.host.test. A" + vlib.Pick(r, []string{"", " cd"}))
+	}
+	e(fmt.Sprintf("l3 end host.test. %d", int(slack/time.Millisecond)+vlib.Pick(r, []int{1, 200, 1000})))
+	hostProbes("")
+	e(fmt.Sprintf("l3 end host.test. %d cd", int(slack/time.Millisecond)+vlib.Pick(r, []int{1, 200, 1000})))
+	hostProbes(" cd")
+	e("l3 q www.vic.test. A")
 	return cnt
 }
